@@ -607,3 +607,142 @@ Definition coercion_safe (t : prim) (v : json) : bool :=
   | JStr s => negb (wire_valid t s)
   | _ => match t with PString => false | _ => true end
   end.
+
+(* =====================================================================================
+   Part D.  The class of a header / cookie parameter, computed from the schema AS DECLARED
+            (specs/openapi/parameters.py as_json_schema:58, from_open_api_to_json_schema:87,
+            transform_keywords:73, converter.py to_json_schema:11, then the comparison
+            header != {type: string} of can_negate_headers, _hypothesis.py:311-319),
+            and an independent reading of the declared schema: can a text value violate it.
+   ===================================================================================== *)
+Definition k_ref : str := [36; 114; 101; 102].
+Definition k_multipleOf : str := [109; 117; 108; 116; 105; 112; 108; 101; 79; 102].
+Definition k_maximum : str := [109; 97; 120; 105; 109; 117; 109].
+Definition k_exclusiveMaximum : str := [101; 120; 99; 108; 117; 115; 105; 118; 101; 77; 97; 120; 105; 109; 117; 109].
+Definition k_minimum : str := [109; 105; 110; 105; 109; 117; 109].
+Definition k_exclusiveMinimum : str := [101; 120; 99; 108; 117; 115; 105; 118; 101; 77; 105; 110; 105; 109; 117; 109].
+Definition k_maxLength : str := [109; 97; 120; 76; 101; 110; 103; 116; 104].
+Definition k_minLength : str := [109; 105; 110; 76; 101; 110; 103; 116; 104].
+Definition k_pattern : str := [112; 97; 116; 116; 101; 114; 110].
+Definition k_maxItems : str := [109; 97; 120; 73; 116; 101; 109; 115].
+Definition k_minItems : str := [109; 105; 110; 73; 116; 101; 109; 115].
+Definition k_uniqueItems : str := [117; 110; 105; 113; 117; 101; 73; 116; 101; 109; 115].
+Definition k_maxProperties : str := [109; 97; 120; 80; 114; 111; 112; 101; 114; 116; 105; 101; 115].
+Definition k_minProperties : str := [109; 105; 110; 80; 114; 111; 112; 101; 114; 116; 105; 101; 115].
+Definition k_required : str := [114; 101; 113; 117; 105; 114; 101; 100].
+Definition k_enum : str := [101; 110; 117; 109].
+Definition k_type : str := [116; 121; 112; 101].
+Definition k_allOf : str := [97; 108; 108; 79; 102].
+Definition k_oneOf : str := [111; 110; 101; 79; 102].
+Definition k_anyOf : str := [97; 110; 121; 79; 102].
+Definition k_not : str := [110; 111; 116].
+Definition k_items : str := [105; 116; 101; 109; 115].
+Definition k_properties : str := [112; 114; 111; 112; 101; 114; 116; 105; 101; 115].
+Definition k_additionalProperties : str := [97; 100; 100; 105; 116; 105; 111; 110; 97; 108; 80; 114; 111; 112; 101; 114; 116; 105; 101; 115].
+Definition k_format : str := [102; 111; 114; 109; 97; 116].
+Definition k_example : str := [101; 120; 97; 109; 112; 108; 101].
+Definition k_examples : str := [101; 120; 97; 109; 112; 108; 101; 115].
+Definition k_nullable : str := [110; 117; 108; 108; 97; 98; 108; 101].
+Definition k_xnullable : str := [120; 45; 110; 117; 108; 108; 97; 98; 108; 101].
+Definition k_null : str := [110; 117; 108; 108].
+Definition k_string : str := [115; 116; 114; 105; 110; 103].
+Definition k_file : str := [102; 105; 108; 101].
+Definition k_binary : str := [98; 105; 110; 97; 114; 121].
+Definition k_xdash : str := [120; 45].
+(* OpenAPI30Parameter.supported_jsonschema_keywords / OpenAPI20Parameter.supported_jsonschema_keywords *)
+Definition supported_30 : list str :=
+  [k_ref; k_multipleOf; k_maximum; k_exclusiveMaximum; k_minimum; k_exclusiveMinimum; k_maxLength; k_minLength; k_pattern;
+   k_maxItems; k_minItems; k_uniqueItems; k_maxProperties; k_minProperties; k_required; k_enum; k_type; k_allOf; k_oneOf;
+   k_anyOf; k_not; k_items; k_properties; k_additionalProperties; k_format; k_example; k_examples].
+Definition supported_20 : list str :=
+  [k_ref; k_type; k_format; k_items; k_maximum; k_exclusiveMaximum; k_minimum; k_exclusiveMinimum; k_maxLength; k_minLength;
+   k_pattern; k_maxItems; k_minItems; k_uniqueItems; k_enum; k_multipleOf; k_example; k_examples].
+
+Definition jdict := list (str * json).          (* a schema object as written in the document *)
+Definition nullable_name (v2 : bool) : str := if v2 then k_xnullable else k_nullable.
+
+(* from_open_api_to_json_schema:87-93 : supported keywords, vendor extensions and the nullable field survive.
+   v2 = Swagger 2.0: the dict is the parameter object itself (name, in, required, description are dropped here) *)
+Definition keep_keyword (v2 : bool) (k : str) : bool :=
+  smem k (if v2 then supported_20 else supported_30) || starts_with k_xdash k || str_eqb k (nullable_name v2).
+
+(* as_json_schema + transform_keywords for a header / cookie parameter.  exs = the values collected from the
+   parameter-level example(s) fields (as_json_schema:61-70).  Not modelled (region hdr_exact below): the quantifier
+   rewriting of pattern + minLength/maxLength (update_pattern_in_schema keeps the pattern key) and the readOnly
+   rewriting of object schemas; neither changes whether the result equals {type: string}. *)
+Definition hp_filter (v2 : bool) (decl : jdict) : jdict := filter (fun kv => keep_keyword v2 (fst kv)) decl.
+Definition hp_examples (exs : list json) (s : jdict) : jdict :=
+  match exs with [] => s | _ => assoc_set k_examples (JArr exs) s end.
+(* to_json_schema:29-32 *)
+Definition hp_file (s : jdict) : jdict :=
+  match assoc_get k_type s with
+  | Some (JStr t) => if str_eqb t k_file then assoc_set k_format (JStr k_binary) (assoc_set k_type (JStr k_string) s) else s
+  | _ => s
+  end.
+(* to_json_schema:26-28; transform (core/transforms.py:69) then converts the wrapped schema again (type file).
+   Deeper sub-schemas (items, ...) are carried unchanged: their conversion never touches the top-level keys *)
+Definition hp_nullable (v2 : bool) (s : jdict) : jdict :=
+  match assoc_get (nullable_name v2) s with
+  | Some (JBool true) =>
+      [(k_anyOf, JArr [JObj (hp_file (assoc_remove (nullable_name v2) s)); JObj [(k_type, JStr k_null)]])]
+  | _ => s
+  end.
+(* transform_keywords:83-84 definition.setdefault(type, string) *)
+Definition hp_default_type (s : jdict) : jdict :=
+  if assoc_mem k_type s then s else s ++ [(k_type, JStr k_string)].
+Definition header_prop_schema (v2 : bool) (decl : jdict) (exs : list json) : jdict :=
+  hp_default_type (hp_file (hp_nullable v2 (hp_examples exs (hp_filter v2 decl)))).
+
+(* header != {type: string} : Python dict equality against the one-entry dict *)
+Definition bare_string : jdict := [(k_type, JStr k_string)].
+Definition is_bare_string (s : jdict) : bool := json_eqb (JObj s) (JObj bare_string).
+Definition header_class (v2 : bool) (decl : jdict) (exs : list json) : pclass :=
+  if is_bare_string (header_prop_schema v2 decl exs) then PStrOnly else POther.
+
+Record hparam := { h_name : str; h_decl : jdict; h_examples : list json; h_required : bool }.
+Definition header_params (v2 : bool) (hs : list hparam) : list (str * pclass) :=
+  map (fun h => (h_name h, header_class v2 (h_decl h) (h_examples h))) hs.
+
+(* where the model compares the converted schema itself (not only its class) with the code *)
+Definition hdr_exact (decl : jdict) : bool :=
+  negb (assoc_mem k_pattern decl && (assoc_mem k_minLength decl || assoc_mem k_maxLength decl))
+  && negb (match assoc_get k_type decl with Some (JStr t) => str_eqb t n_object | _ => false end).
+
+(* ---- the independent reading: is there a TEXT value that violates the schema as declared?
+        (every header / cookie value is text on the wire, so a bare type string cannot be violated by a value;
+        a declared non-string type can: text outside its lexical space) ---- *)
+Definition constraint_keys : list str := [k_enum; k_pattern; k_maxLength; k_format].
+Definition entry_violable (kv : str * json) : bool :=
+  let k := fst kv in
+  if str_eqb k k_type then negb (json_eqb (snd kv) (JStr k_string))
+  else if smem k constraint_keys then true
+  else if str_eqb k k_minLength then match snd kv with JInt z => (0 <? z)%Z | _ => false end
+  else false.
+Definition header_value_violable (decl : jdict) : bool := existsb entry_violable decl.
+(* omission violates a required parameter *)
+Definition header_violable (h : hparam) : bool := h_required h || header_value_violable (h_decl h).
+
+(* region of the converse: the declared schema is made of type, the five string constraints (minLength positive)
+   and keys the converter drops (title, description, default, deprecated, ...); keys unique as in a Python dict *)
+Definition plain_entry (v2 : bool) (kv : str * json) : bool :=
+  let k := fst kv in
+  if str_eqb k k_type then true
+  else if smem k constraint_keys then true
+  else if str_eqb k k_minLength then match snd kv with JInt z => (0 <? z)%Z | _ => false end
+  else negb (keep_keyword v2 k).
+Definition plain_header (v2 : bool) (decl : jdict) : bool :=
+  forallb (plain_entry v2) decl && unique_strs (map fst decl).
+
+Definition is_nil {A} (l : list A) : bool := match l with [] => true | _ => false end.
+Definition value_violable_h (h : hparam) : bool := header_value_violable (h_decl h).
+(* region of the converse, per parameter: plain declared schema, no parameter-level example, optional *)
+Definition plain_hparam (v2 : bool) (h : hparam) : bool :=
+  plain_header v2 (h_decl h) && is_nil (h_examples h) && negb (h_required h).
+
+Definition i_loc (k : lkind) (i : op_in) : loc_in :=
+  match k with LPath => i_path i | LHeader => i_header i | LCookie => i_cookie i | LQuery => i_query i end.
+
+(* an operation whose only inputs are headers and cookies *)
+Definition only_headers (i : op_in) : bool :=
+  negb (has_params (i_path i)) && negb (has_params (i_query i))
+  && match b_alts (i_body i) with [] => true | _ => false end.
